@@ -400,6 +400,31 @@ def plan_scenarios(fx, exe, out_path, payloads=(0,)):
                     if not run(seq):
                         ex.close()
                         return ex.records, crash
+    # storage scenarios (C07): plans of 3 and 4 tasks (another region's tasks interleaved in the pool) with the last, the
+    # first and a middle task removed, each followed by an append to the same plan (the tail / head links must be the
+    # survivor's), then cleared and the pool filled to capacity and beyond (every slot must have come back)
+    regions = []
+    for h in range(1, fl.n + 1):
+        st = fl.st(h)
+        inside = fl.subtree(h)
+        if st["kind"] != "S" and len(inside) >= 3:
+            regions.append((st["region"], inside[1], inside[2]))
+    for idx, (r, a, b) in enumerate(regions[:3]):
+        other = regions[(idx + 1) % len(regions)] if len(regions) > 1 else None
+        for n in (3, 4):
+            seq = list(start)
+            for i in range(n):
+                seq.append("pa %d %d %d %s 0" % (r, a if i % 2 == 0 else b, b if i % 2 == 0 else a, ("change", "restart", "resume")[i % 3]))
+                if other and i == 0:
+                    seq.append("pa %d %d %d change 0" % (other[0], other[1], other[2]))
+            for pos in (n, 1, 2):
+                seq += ["pr %d %d" % (r, pos), "pa %d %d %d schedule 0" % (r, b, a), "ps %d 0" % r]
+            seq += ["pr %d %d" % (r, n), "pr %d %d" % (r, n - 1), "pa %d %d %d change 0" % (r, a, a), "pc %d" % r]
+            seq += ["pa %d %d %d change 0" % (r, a, b)] * (cfg["taskcap"] + 1 if cfg.get("taskcap") else 6)
+            seq += ["ps %d 5" % r, "pa %d %d %d change 0" % (r, b, b), "pc %d" % r, "del"]
+            if not run(seq):
+                ex.close()
+                return ex.records, crash
     ex.close()
     return ex.records, crash
 
